@@ -25,6 +25,20 @@ def _facts(name):
         for f in sorted(fs):
             h.update(open(os.path.join(root, f), "rb").read())
     out = os.path.join(extract.WORK, "facts", "control-" + h.hexdigest()[:16], crate)
+    if os.path.exists(os.path.join(out, crate + ".json")):
+        return out
+    import fcntl
+    os.makedirs(extract.WORK, exist_ok=True)
+    lockf = open(os.path.join(extract.WORK, "control-%s.lock" % name), "w")
+    fcntl.flock(lockf, fcntl.LOCK_EX)
+    try:
+        return _facts_locked(name, crate, src, out)
+    finally:
+        fcntl.flock(lockf, fcntl.LOCK_UN)
+        lockf.close()
+
+
+def _facts_locked(name, crate, src, out):
     if not os.path.exists(os.path.join(out, crate + ".json")):
         extract.build_driver()
         if os.path.isdir(out):
@@ -37,7 +51,7 @@ def _facts(name):
         env["INCRFACTS_OUT"] = out
         env["INCRFACTS_CONFIG"] = "control"
         env["INCRFACTS_CRATES"] = crate
-        env["CARGO_TARGET_DIR"] = os.path.join(extract.WORK, "tgt", "control-" + name + os.environ.get("VERIF_TGT_SUFFIX", ""))
+        env["CARGO_TARGET_DIR"] = os.path.join(extract.WORK, "tgt", "control-" + name)
         shutil.rmtree(env["CARGO_TARGET_DIR"], ignore_errors=True)
         r = subprocess.run(["cargo", "+nightly", "check", "--offline"], cwd=src, env=env, stdout=subprocess.PIPE,
                            stderr=subprocess.STDOUT, text=True)
@@ -49,7 +63,7 @@ def _facts(name):
 def control_program(name):
     if name not in _cache:
         d = _facts(name)
-        _cache[name] = Program(d, "control") if d else None
+        _cache[name] = Program(d, "control", inline=False) if d else None
     return _cache[name]
 
 
